@@ -767,6 +767,11 @@ func c09SweepSchema() *pgSchema {
 		fld(11, "i_32", pgSingular, 5, 0, ""),
 		fld(12, "f_flt", pgSingular, pgKFloat, 0, ""),
 		fld(13, "km_msg", pgMap, pgKMessage, 3, "N"),
+		fld(16, "k_s64", pgMap, 5, 18, ""),
+		fld(17, "k_f32", pgMap, 5, 7, ""),
+		fld(18, "k_f64", pgMap, pgKString, 6, ""),
+		fld(19, "k_sf32", pgMap, 5, 15, ""),
+		fld(20, "k_sf64", pgMap, pgKMessage, 16, "N"),
 		{Num: 14, Name: "e_enum", Label: pgSingular, Kind: pgKEnum, EnumName: "E0"},
 		{Num: 15, Name: "le_enum", Label: pgRepeated, Kind: pgKEnum, EnumName: "E0"},
 	}}
@@ -1022,6 +1027,41 @@ func genC09(r *rng, n int) {
 			98: { // small valid documents: empty containers everywhere
 				`{}`, ` { } `, `{"s_pad":"😀é"}`, `{"n_next":{},"a_int":1}`, `{"l_ints":[],"a_int":1}`, `{"ls_strs":[],"m_map":{},"ln_list":[],"a_int":1}`,
 				`{"ln_list":[{},{}],"m_map":{"a":{},"b":{}}}`, `{"k_keys":{"le_enum":[],"k_i32":{}},"a_int":1}`},
+		}
+		// member names per key kind: legal boundaries, accepted non-canonical spellings, names that are no literal of the key
+		// kind (must be an error), and the key kinds the converter does not support (every name is an error)
+		keyNames := map[string][]string{
+			"k_i32":  {"0", "-1", "2147483647", "-2147483648", "2147483648", "-2147483649", "4294967296", "abc", "1.5", "", "1e2", " 1", "1 ", "+5", "007", "-0", "0x10", "1_000", "９"},
+			"k_i64":  {"0", "9223372036854775807", "-9223372036854775808", "9223372036854775808", "-9223372036854775809", "99999999999999999999999", "abc", "1.5", "", "+5", "007"},
+			"k_u32":  {"0", "4294967295", "4294967296", "-1", "-0", "+5", "abc", "1.5", "", "007", "1e2"},
+			"k_u64":  {"0", "18446744073709551615", "18446744073709551616", "-1", "+5", "abc", "1.0", "", "007"},
+			"k_bool": {"true", "false", "TRUE", "True", "t", "1", "0", "F", "maybe", "yes", "", "tRUE", "2"},
+			"k_str":  {"", "k", "1", "true"},
+			"k_s32":  {"0", "1", "-3", "abc"},
+			"k_s64":  {"0", "-3"},
+			"k_f32":  {"0", "7"},
+			"k_f64":  {"0", "x"},
+			"k_sf32": {"0", "-7"},
+			"k_sf64": {"0", "1"},
+		}
+		keyClass := map[string]int{"k_i32": 105, "k_i64": 103, "k_u32": 113, "k_u64": 104, "k_bool": 108, "k_str": 109,
+			"k_s32": 117, "k_s64": 118, "k_f32": 107, "k_f64": 106, "k_sf32": 115, "k_sf64": 116}
+		for _, f := range []string{"k_i32", "k_i64", "k_u32", "k_u64", "k_bool", "k_str", "k_s32", "k_s64", "k_f32", "k_f64", "k_sf32", "k_sf64"} {
+			val := "1"
+			if f == "k_str" || f == "k_f64" {
+				val = `"v"`
+			}
+			if f == "k_sf64" {
+				val = `{"a_int":1}`
+			}
+			for _, kn := range keyNames[f] {
+				q := strconv.Quote(kn)
+				c09Run(sw, swf, []byte(`{"k_keys":{"`+f+`":{`+q+`:`+val+`}}}`), false, nil, keyClass[f])
+				// after a good pair and before another member: the error must not depend on the position
+				if f != "k_str" {
+					c09Run(sw, swf, []byte(`{"a_int":1,"k_keys":{"`+f+`":{"1":`+val+`,`+q+`:`+val+`}},"s_pad":"x"}`), false, nil, keyClass[f])
+				}
+			}
 		}
 		for cl := 90; cl <= 98; cl++ {
 			for _, d := range hand[cl] {
